@@ -64,6 +64,21 @@ Definition gen_cfg (c : opcfg) : opcfg :=
      (dedupe_strings (exc_hosts c ++ [archive_org; archive_it_org]))
      (exc_strings c).
 
+(* ---- the exclusion files ---------------------------------------------------------------- *)
+(* --exclusion-file may be given several times.  GenerateCrawlConfig reads the files in order,
+   every line of a file is one regular expression (an empty line too: it matches everything),
+   and APPENDS each file's compiled expressions to config.ExclusionRegexes:
+       for _, file := range config.ExclusionFile {
+           ... config.ExclusionRegexes = append(config.ExclusionRegexes, compileRegexes(regexes)...) }
+   A file = the list of its lines. *)
+Definition exclusion_files := list (list bytes).
+Definition gen_regexes (files : exclusion_files) : list bytes := concat files.
+
+(* matchRegexExclusion's inputs for one URL text: the answers of the effective expressions, in
+   order.  [matches re text] = regexp.MustCompile(re).MatchString(text) is an oracle. *)
+Definition regex_bits (matches : bytes -> bytes -> bool) (files : exclusion_files) (text : bytes) : list bool :=
+  map (fun re => matches re text) (gen_regexes files).
+
 (* ---- the scope predicate ------------------------------------------------------------- *)
 (* len(IncludeHosts) > 0 || len(IncludeString) > 0 *)
 Definition nonempty {A} (l : list A) : bool := match l with [] => false | _ => true end.
